@@ -77,10 +77,13 @@ def generators(tier, seed):
                   chunk="edge", max_chunks=3, max_calls=8, max_faults=1, inv="ObsOk PkInv TokInv"))
     if not q:
         g.append(dict(name="rx_huge", machine="tokio", ins=[[4259845, 5], [22, 4194309]], outs=[[]], modes=["free"],
-                      chunk="edge", max_chunks=4, max_calls=8, max_faults=1, inv="ObsOk PkInv TokInv"))
+                      chunk="edge", max_chunks=3, max_calls=8, max_faults=1, inv="ObsOk PkInv TokInv"))
     # (b) TokioTransport, send direction: below, at and above the backpressure boundary
-    g.append(dict(name="tx_all", machine="tokio", ins=[[]], outs=[[5], [7]] if q else [[5], [7], [5, 6]], modes=["free"],
+    g.append(dict(name="tx_all", machine="tokio", ins=[[]], outs=[[5], [7]], modes=["free"],
                   chunk="all", max_chunks=0, max_calls=10, max_faults=1 if q else 2, inv="ObsOk TokInv"))
+    if not q:
+        g.append(dict(name="tx_all2", machine="tokio", ins=[[]], outs=[[5, 6], [6, 5]], modes=["free"],
+                      chunk="all", max_chunks=0, max_calls=10, max_faults=1, inv="ObsOk TokInv"))
     tx_big = [[5, 6], [8191, 5], [8192, 5], [8193, 6], [5, 8187, 22], [65537, 22], [131075, 5]]
     if not q:
         tx_big += [[22, 8169, 5], [8191, 8193], [65536, 65535, 6]]
